@@ -56,7 +56,7 @@ Section More.
     intros H J D c w G Hh. pose proof G as (A & B & _). unfold next_get.
     apply safe_chk. { eapply CI_live_alloc; [apply (A c)|]. eapply CI_h_live; [apply (A c)|]; auto. }
     apply safe_chks. destruct (succ_of c (s_list w)) as [n|] eqn:Es; simpl.
-    - destruct (succ_of_lt _ _ _ B Es) as (Lt & In).
+    - destruct (succ_of_lt _ _ _ (proj1 B) Es) as (Lt & In).
       apply mem_In in In. pose proof (A n) as An. rewrite In in An.
       assert (L : live (conns w n)) by (eapply CI_inl_live; eauto).
       apply safe_bind. eapply safe_mono; [| apply ref_ok; eauto].
